@@ -961,7 +961,8 @@ func laws(sel int, in, got []int64, law func(lsel int, lin []int64, sig string))
 			// validity of the defaulted object when the request was valid modulo defaults
 			setQueues(c.qs, c.useIn)
 			v0 := realValidateCreate(jobJSON(prefill(j)))
-			l = encJob(nil, m1, false)
+			// the range condition of the law is evaluated on the REQUEST j, not on the defaulted object
+			l = encJob(nil, j, false)
 			law(103, append(l, vh.B(v0), got[0]), "")
 		}
 	case 3:
